@@ -46,7 +46,7 @@ def observe(exe, cid, srcname, flags="", timeout=60):
         else:
             fn = fn.split("::")[-1]
         frames.append([fn, line])
-    return {"out": [[tok(t) for t in l.split(" ")] for l in full], "tail": [tok(t) for t in tail.split(" ")] if tail else [],
+    return {"out": [[tok(t) for t in l.split(" ") if t != ""] for l in full], "tail": [tok(t) for t in tail.split(" ") if t != ""],
             "status": r.rc if not r.timed_out and r.signal is None else (-9 if r.timed_out else -r.signal - 1000),
             "frames": frames, "err0": errl[0] if errl else "", "signal": r.signal, "timed_out": r.timed_out,
             "raw_out": out[-2000:], "raw_err": r.err[-2000:]}
@@ -67,3 +67,48 @@ def judge(records, workdir, tag="cases", timeout=1800):
     if len(verdicts) != len(records):
         raise ToolError(f"DoraSem judged {len(verdicts)} of {len(records)} cases:\n" + res.out[-3000:])
     return [verdicts[(r["id"], r["cfg"])] for r in records], res
+
+
+import sys
+sys.path.insert(0, os.path.join(VERIF, "gen"))
+import dsem_gen
+
+
+def compile_with_bisect(cases_src_fn, idxs, workdir, tag, backend, gc, failures, depth=0):
+    """compile the program made of the cases `idxs`; on failure split until single failing cases are isolated.
+    returns list of (exe, srcname, idxs)"""
+    src, asts = cases_src_fn(idxs)
+    name = f"{tag}_{backend}_{gc or 'def'}_{depth}_{idxs[0]}_{len(idxs)}"
+    path = os.path.join(workdir, name + ".dora")
+    open(path, "w").write(src)
+    b, msg = progs.compile_prog(path, os.path.join(workdir, name), backend=backend, gc=gc, timeout=600)
+    if b is not None:
+        return [(b.exe, os.path.basename(path), idxs, asts)]
+    if len(idxs) == 1:
+        failures.append({"backend": backend, "gc": gc, "case": idxs[0], "source_file": path, "message": msg[-3000:]})
+        return []
+    mid = len(idxs) // 2
+    return compile_with_bisect(cases_src_fn, idxs[:mid], workdir, tag, backend, gc, failures, depth + 1) + \
+           compile_with_bisect(cases_src_fn, idxs[mid:], workdir, tag, backend, gc, failures, depth + 1)
+
+
+def campaign(ctx, seed, ncases, features, configs, flagsets=("",), tag="p"):
+    """generate one multi-case program, build it for every (backend, gc) in configs, run every case under every
+    flag set, judge all runs with DoraSem. Returns (records, verdicts, compile_failures, tlc_result)."""
+    rnd_cases = dsem_gen.generate_cases(seed, ncases, features)
+
+    def src_fn(idxs):
+        return dsem_gen.render_subset(rnd_cases, idxs)
+    records = []
+    failures = []
+    for backend, gc in configs:
+        for exe, srcname, idxs, asts in compile_with_bisect(src_fn, list(range(ncases)), ctx.work, f"{tag}{seed}", backend, gc, failures):
+            for a in asts:
+                for flags in flagsets:
+                    obs = observe(exe, a["id"], srcname, flags=flags)
+                    records.append({"id": a["id"], "cfg": f"{backend}/{gc or 'default'}/{flags}", "ast": a, "obs": obs,
+                                    "source_file": os.path.join(ctx.work, srcname), "seed": seed})
+    if not records:
+        return [], [], failures, None
+    verdicts, res = judge(records, ctx.work, tag=f"{tag}{seed}")
+    return records, verdicts, failures, res
